@@ -59,6 +59,16 @@ Theorem C43_no_failure_all_delivered : forall e reqs, no_load_failure e reqs = t
   Forall2 (strict_cb e) (firstn (length (t_cbs t)) (sort reqs)) (t_cbs t).
 Proof. exact no_failure_all_delivered. Qed.
 
+(* Repository.LoadBlob (the fallback loader): it returns the blob exactly when some copy is usable - intact,
+   downloadable, inside its pack - whatever the order of the index entries, the stored lengths and damage of
+   the other copies, and the buffer passed in; never through a damaged copy; the result does not depend on
+   the order of the copies *)
+Theorem C43_load_blob_ok_iff : forall cs blen bcap, load_blob cs blen bcap = LOk <-> existsb usable cs = true.
+Proof. exact load_blob_ok_iff. Qed.
+Theorem C43_load_blob_order_independent : forall cs cs' a b a' b',
+  Permutation cs cs' -> load_blob cs a b = load_blob cs' a' b'.
+Proof. exact load_blob_order_independent. Qed.
+
 Theorem C43_oracle_sound : forall c, check_C43 c = true -> C43_holds c.
 Proof. exact check_C43_sound. Qed.
 
@@ -71,4 +81,6 @@ Print Assumptions C43_parts_partition.
 Print Assumptions C43_no_panic.
 Print Assumptions C43_callback_error_stops.
 Print Assumptions C43_no_failure_all_delivered.
+Print Assumptions C43_load_blob_ok_iff.
+Print Assumptions C43_load_blob_order_independent.
 Print Assumptions C43_oracle_sound.
